@@ -13,20 +13,42 @@ package graph
 
 //@ spec sortedInts(a []int) bool = forall i in 0..len(a)-1 :: a[i] <= a[i+1]
 
+// multisets of ints as counts
+//@ spec cntV(a []int, k int, v int) int = k <= 0 ? 0 : cntV(a, k-1, v) + (a[k-1] == v ? 1 : 0)
+//@ lemma cntV_pointwise(a []int, b []int, k int, v int) induction k same
+//@   model int
+//@   requires 0 <= k && k <= len(a) && k <= len(b) && (forall j in 0..k :: a[j] == b[j])
+//@   ensures cntV(a, k, v) == cntV(b, k, v)
+
 //@ assume func sort.Ints
-//@   trusted standard library: sorts its argument in place and touches nothing else
-//@   ensures sortedInts(x)
+//@   trusted standard library: sorts its argument in place (a permutation: every value keeps its number of occurrences) and touches nothing outside it
+//@   ensures sortedInts(x) && (forall v int :: cntV(x, len(x), v) == old(cntV(x, len(x), v)))
 //@   assigns x[*]
 
 // Equal (C18, C20): compares adjacency lists as multisets without modifying
-// either graph: the lists are copied into a scratch buffer before sorting.
+// either graph: the lists are copied into a scratch buffer before sorting. A
+// positive answer is proved to mean equal node counts and, for every node,
+// adjacency lists with the same number of occurrences of every value.
 //@ func Equal
 //@   model int
 //@   ensures [sizes] result ==> g1.NumNodes() == g2.NumNodes()
+//@   ensures [multisets] result ==> (forall a in 0..g1.NumNodes(), v int :: old(cntV(g1.Out(a), len(g1.Out(a)), v)) == old(cntV(g2.Out(a), len(g2.Out(a)), v)))
 //@   loop 1 (i) modifies nothing
-//@   loop 1 (i) invariant isnil(temp) || fresh(temp)
-//@   loop 2 (ei) invariant eq
-//@   loop 3 (ei) invariant true
+//@   loop 1 (i) invariant (isnil(temp) || fresh(temp)) && 0 <= i && (forall a in 0..i, v int :: old(cntV(g1.Out(a), len(g1.Out(a)), v)) == old(cntV(g2.Out(a), len(g2.Out(a)), v)))
+//@   loop 2 (ei) invariant eq ==> (forall j in 0.._k :: e2[j] == e1[j])
+//@   loop 3 (ei) invariant forall j in 0.._k :: e2[j] == e1[j]
+//@   assert @assign:e2#2 [pw1] forall j in 0..len(e1) :: e1[j] == g1.Out(i)[j]
+//@   assert @assign:e2#2 [pw2] forall j in 0..len(e2) :: e2[j] == g2.Out(i)[j]
+//@   assert @assign:e2#2 [copy1] forall v int :: cntV(e1, len(e1), v) == cntV(g1.Out(i), len(g1.Out(i)), v) by cntV_pointwise(e1, g1.Out(i), len(e1), v)
+//@   assert @call:sort.Ints#1 [pw2b] forall j in 0..len(e2) :: e2[j] == g2.Out(i)[j]
+//@   assert @call:sort.Ints#1 [copy2] forall v int :: cntV(e2, len(e2), v) == cntV(g2.Out(i), len(g2.Out(i)), v) by cntV_pointwise(e2, g2.Out(i), len(e2), v)
+//@   assert @call:sort.Ints#1 [sorted1] forall v int :: cntV(e1, len(e1), v) == cntV(g1.Out(i), len(g1.Out(i)), v)
+//@   snapshot s1 = e1 @call:sort.Ints#1
+//@   assert @call:sort.Ints#2 [keep1] forall v int :: cntV(e1, len(e1), v) == cntV(s1, len(s1), v) by cntV_pointwise(e1, s1, len(e1), v)
+//@   assert @call:sort.Ints#2 [sorted2] forall v int :: cntV(e2, len(e2), v) == cntV(g2.Out(i), len(g2.Out(i)), v)
+//@   assert @call:sort.Ints#2 [both] forall v int :: cntV(e1, len(e1), v) == cntV(g1.Out(i), len(g1.Out(i)), v)
+//@   assert @loop2:exit [same-lists] forall v int :: eq ==> cntV(e1, len(e1), v) == cntV(e2, len(e2), v) by cntV_pointwise(e1, e2, len(e1), v)
+//@   assert @loop3:exit [same-sorted] forall v int :: cntV(e1, len(e1), v) == cntV(e2, len(e2), v) by cntV_pointwise(e1, e2, len(e1), v)
 //@   assigns nothing
 
 //@ assume pure BiGraph.NumNodes
